@@ -330,6 +330,8 @@ func (e *Ev) binop(op token.Token, l, r Val, n ast.Node) Val {
 			e.unsupp(n, "comparison of a []string with nil is not modelled")
 		case VInt:
 			t = sEq(x.T, "0")
+		case VSubmatch:
+			t = sNot(x.Hit)
 		default:
 			e.unsupp(n, "comparison of %T with nil", l)
 		}
@@ -340,6 +342,26 @@ func (e *Ev) binop(op token.Token, l, r Val, n ast.Node) Val {
 			return VBool{sNot(t)}
 		}
 		e.unsupp(n, "bad nil comparison")
+	}
+	if se, ok := r.(VSubElem); ok {
+		l, r = se, l
+	}
+	if se, ok := l.(VSubElem); ok {
+		lit, ok := r.(VStr)
+		if !ok || lit.Lit == nil || (op != token.EQL && op != token.NEQ) {
+			e.unsupp(n, "a submatch can only be compared with a literal")
+		}
+		lang, ok := e.fx.prog.groupChar(se.Sub.Var, se.Idx, *lit.Lit)
+		if !ok {
+			e.unsupp(n, "no groupchar directive for group %d of %s equal to %q", se.Idx, se.Sub.Var, *lit.Lit)
+		}
+		e.fx.langsUsed[lang] = true
+		e.fx.trusted[fmt.Sprintf("groupchar: group %d of %s equals %q exactly on the strings of %s (bounded stand-in, validated against package regexp on every run)", se.Idx, se.Sub.Var, *lit.Lit, lang)] = true
+		t := "(inlang_" + lang + " " + se.Sub.In + ")"
+		if op == token.NEQ {
+			t = sNot(t)
+		}
+		return VBool{t}
 	}
 	switch a := l.(type) {
 	case VInt:
@@ -543,6 +565,14 @@ func (e *Ev) evIndex(x *ast.IndexExpr, commaOk bool) Val {
 		return e.arrLitIndex(b, i, x)
 	case VHeapMap:
 		return e.heapMapLookup(b, e.ev(x.Index), commaOk, x)
+	case VSubmatch:
+		i := e.intOf(e.ev(x.Index), x.Index)
+		k, err := strconv.Atoi(i)
+		if err != nil {
+			e.unsupp(x, "submatch index must be constant")
+		}
+		e.safety("index", "index", x.Pos(), sAnd(b.Hit, sLt(i, fmt.Sprintf("%d", b.N))), "submatch index in range")
+		return VSubElem{b, k}
 	case VFuncTable:
 		i := e.intOf(e.ev(x.Index), x.Index)
 		e.safety("index", "index", x.Pos(), sAnd(sLe("0", i), sLt(i, fmt.Sprintf("%d", len(b.Keys)))), "function table index in range")
